@@ -446,6 +446,9 @@ func checkConnect(before gsnap, g *genetics.Genome, ok bool, bad badf) {
 	if len(srcs) > 1 {
 		bad("connect-several-sensors", "connect-sensors connected more than one sensor")
 	}
+	if !ok && nAdded > 0 {
+		bad("connect-changed-but-reported-no-change", "connect-sensors added genes although it reported that nothing was done")
+	}
 	if ok {
 		nonSensors := 0
 		for _, n := range g.Nodes {
@@ -621,6 +624,33 @@ func (o *opsGen) stepRec(f *family, stepNo int, mateProb float64, mutWeights []i
 		if prop == "C01" && f.sibling != nil && r.Intn(3) == 0 {
 			// parents from independently numbered lineages: the same number may denote different links
 			g2 = f.sibling.pick(r)
+		}
+		if r.Intn(6) == 0 {
+			// parents in shapes evolution rarely reaches but the property allows: every gene disabled (the child
+			// then has no enabled gene either), or weights at the bottom of the float range (where halving before
+			// adding is not the same as adding before halving)
+			a, e1 := genetics.VDuplicate(g, g.Id)
+			b, e2 := genetics.VDuplicate(g2, g2.Id)
+			if e1 == nil && e2 == nil {
+				if r.Intn(2) == 0 {
+					for _, x := range a.Genes {
+						x.IsEnabled = false
+					}
+					for _, x := range b.Genes {
+						x.IsEnabled = false
+					}
+				} else {
+					ws := []float64{5e-324, -5e-324, 1.5e-323, 2.5e-323, 1e-310, -3e-308, 1.7e308, 0}
+					off := r.Intn(3)
+					for _, x := range a.Genes {
+						x.Link.ConnectionWeight = ws[int(x.InnovationNum)%len(ws)]
+					}
+					for _, x := range b.Genes {
+						x.Link.ConnectionWeight = ws[(int(x.InnovationNum)+off)%len(ws)]
+					}
+				}
+				g, g2 = a, b
+			}
 		}
 		f1, f2 := fitnessPair(r)
 		op := opSpec{Kind: "mate", Method: r.Intn(3), NewId: 100 + stepNo, F1: JF(f1), F2: JF(f2)}
